@@ -264,6 +264,8 @@ class PersLandscapeApprox(PersLandscape):
             raise ValueError("Stop values of grids do not coincide")
         if self.num_steps != other.num_steps:
             raise ValueError("Number of steps of grids do not coincide")
+        self.compute_landscape()
+        other.compute_landscape()
         self_pad, other_pad = union_vals(self.values, other.values)
         return PersLandscapeApprox(
             start=self.start,
@@ -275,6 +277,7 @@ class PersLandscapeApprox(PersLandscape):
 
     def __neg__(self):
         """Negates an approximate persistence landscape"""
+        self.compute_landscape()
         return PersLandscapeApprox(
             start=self.start,
             stop=self.stop,
@@ -303,6 +306,7 @@ class PersLandscapeApprox(PersLandscape):
             The real scalar to be multiplied.
         """
         super().__mul__(other)
+        self.compute_landscape()
         return PersLandscapeApprox(
             start=self.start,
             stop=self.stop,
